@@ -532,7 +532,11 @@ _c("C08",
    "jsonschema Draft4Validator under python3-vt; model serializer vs serialize; real Serializer output validated against the real export; "
    "boundary documents vs the Deserializer on the statement's exact sub-fragment): Set/Tuple/positional arrays/uniqueItems/AllOf/OneOf/Not/"
    "class references/by-value enums for completeness, the whole exactness clause, history independence; StructureReference, inheritance, "
-   "ImmutableStructure and the serialization_mapper argument are outside the model and judged on observed behaviour only.",
+   "ImmutableStructure and the serialization_mapper argument are outside the field model and judged on observed behaviour "
+   "(incl. a deterministic mapper matrix: mapper kind x class attribute/argument x holder renamed x inline structure / array / map "
+   "of them / nested inline / class reference x nested keys renamed); for inline structures the model has the mapper TREE and "
+   "C08_inline_complete: if export and serializer read '<name>._mapper' under the same name the inline serialization validates, "
+   "and which name each reads is regenerated from the source (C08_src_submapper_lookup).",
    "Trusted: Coq kernel + vm_compute; Draft4.v/ToSchema.v hand-written, validated against jsonschema 4.x; harness/c08_vt_worker.py; the "
    "abstract interpreter of harness/genmods/schema_guards.py (fails closed); valid4 is fuelled (theorems carry fdepth f <= n); the by-value "
    "flag of an Enum field is modelled per enum class (the generator declares it uniformly per class); rename maps fed to the model are "
